@@ -248,6 +248,15 @@ def run(ck, ix, tier):
     for m in mids:
         twice = [x for x in mids if x != m and x in cfgc.reach([v for (v, lab) in cfgc.succ[m] if lab != "exc"])]
         ck.check(not twice, "G-TWIN", "_convert|factor-applied-once", fi.loc(cfgc.nodes[m].ast), "the factor is applied once per path", "a path through _convert applies the factor twice")
+    # a (possibly float) factor enters an exact magnitude type only through its shortest decimal text: Decimal(0.001) is
+    # the binary expansion 0.001000000000000000020816..., Decimal(str(0.001)) is 0.001
+    exact_ctor = [c_ for c_ in walk_local(fi.node) if isinstance(c_, ast.Call) and call_name(c_) in ("Decimal", "Fraction") and c_.args and factorish(c_.args[0])]
+    ck.floor("G-PROV", len(exact_ctor), 2, "coercions of the conversion factor to Decimal / Fraction in _convert")
+    for c_ in exact_ctor:
+        a0 = c_.args[0]
+        ok_ = isinstance(a0, ast.Call) and call_name(a0) in ("str", "repr") and len(a0.args) == 1
+        ck.check(ok_, "G-PROV", f"_convert|factor-enters-exact-type-through-its-text|{call_name(c_)}", fi.loc(c_), "Decimal/Fraction of the factor is built from str(factor)",
+                 f"`{norm(c_)}` converts the conversion factor to {call_name(c_)} from the binary float itself: Decimal magnitudes pick up the float's binary expansion (1.5 mm -> 0.001500000000000000031225 m)")
     fi = ix.func(PR, "GenericPlainRegistry.convert")
     cfg = cfg_of(fi)
     same = shape.guard_edges(cfg, lambda a: norm(a) in ("src == dst", "dst == src"), want=True)
